@@ -457,6 +457,29 @@ def event_terms(events, bech):
     return out
 
 
+# ---------------------------------------------------------------- address spellings
+
+_PAIRS = {"MsgSend": ("sender", "recipient"), "MsgUpdateClassAdmin": ("admin", "new_admin"),
+          "MsgUpdateProjectAdmin": ("admin", "new_admin"), "MsgUpdateCurator": ("curator", "new_curator")}
+
+
+def spelling_ctor(type_url, m):
+    """IMsg for messages in canonical spelling, IMsgSp <spelling> when one of the address strings ValidateBasic or a
+    governance handler compares is the upper-case spelling (harness/chain/trace.go marks it with "upper")."""
+    if not isinstance(m, dict):
+        return "IMsg"
+    up = lambda v: bool(isinstance(v, dict) and v.get("upper"))
+    t = type_url.rsplit(".", 1)[-1]
+    same = True
+    if t in _PAIRS:
+        a, c = _PAIRS[t]
+        same = up(m.get(a)) == up(m.get(c))
+    auth = not up(m.get("authority"))
+    if same and auth:
+        return "IMsg"
+    return "IMsgSp {| sp_pair_identical := %s; sp_authority_canonical := %s |}" % (cbool(same), cbool(auth))
+
+
 # ---------------------------------------------------------------- traces
 
 def trace_case(cid, t):
@@ -475,7 +498,7 @@ def trace_case(cid, t):
             if it.get("more"):
                 raise OutOfModel("multi-message tx")
             m = msg_term(it["type_url"], it["msg"])
-            items.append("IMsg %s %s %s %s %s" % (m, cbool(ok), response_term(it["type_url"], res.get("responses")) if ok else "REmpty",
+            items.append("%s %s %s %s %s %s" % (spelling_ctor(it["type_url"], it["msg"]), m, cbool(ok), response_term(it["type_url"], res.get("responses")) if ok else "REmpty",
                                                   clist(event_terms(res.get("events"), bech)) if ok else "[]",
                                                   clist(diff_rows(it.get("diff")) if ok else [])))
         elif k == "fund":
@@ -490,7 +513,7 @@ def trace_case(cid, t):
 HEADER = """From stdpp Require Import gmap.
 From Coq Require Import List ZArith NArith String Strings.Byte.
 Require Import Regen.Base.Bytes Regen.Base.Calendar Regen.Dec.Dec.
-Require Import Regen.Ledger.Types Regen.Ledger.Msgs Regen.Ledger.Orm Regen.Ledger.Step.
+Require Import Regen.Ledger.Types Regen.Ledger.Msgs Regen.Ledger.Orm Regen.Ledger.Step Regen.Ledger.SpellingModel.
 Require Import Regen.Cases.LedgerRun.
 Import ListNotations.
 Open Scope string_scope.
